@@ -260,8 +260,8 @@ func canonOf(v tla.Value, norm bool) string {
 // ---- enumeration ------------------------------------------------------------------------------------------
 
 type universe struct {
-	shapes []*shape
-	byText map[string]*shape
+	shapes   []*shape
+	byText   map[string]*shape
 	nStrict  int
 	nNorm    int
 	coreSize int
